@@ -45,6 +45,8 @@ hmod!(pub(crate) c09, "c09.rs");
 #[cfg(not(feature = "shuttle"))]
 hmod!(pub(crate) c09t, "c09t.rs");
 #[cfg(not(feature = "shuttle"))]
+hmod!(pub(crate) c09o, "c09o.rs");
+#[cfg(not(feature = "shuttle"))]
 hmod!(pub(crate) c10, "c10.rs");
 #[cfg(not(feature = "shuttle"))]
 hmod!(pub(crate) c13, "c13.rs");
